@@ -460,6 +460,20 @@ ROUND14 = {
 for _k, _v in ROUND14.items():
     CLAIMED[_k]["text"] = CLAIMED[_k]["text"] + " " + _v
 
+# sentences added in the fifteenth round of seeding (the other ten properties)
+ROUND15 = {
+    "C01": "Whether a component aggregates is read off its own specification only.",
+    "C02": "After a refused restart the final state is decided by the exit reason captured before the attempt.",
+    "C07": "The scope in which instance() resolves a stored component's variables is layered global, stage, component.",
+    "C10": "The whole-reference patterns are compiled without flags that change their boundary classes.",
+    "C12": "A handler of the hook call that allows a plain restart catches I/O errors only.",
+    "C17": "get_environment's default-platform test looks at the platform of the lookup.",
+    "C18": "Every archive member reaches the containment test of its name.",
+    "C20": "The number of stages counts every component's stage through int().",
+}
+for _k, _v in ROUND15.items():
+    CLAIMED[_k]["text"] = CLAIMED[_k]["text"] + " " + _v
+
 
 def main():
     checks = []
